@@ -351,6 +351,27 @@ theorem C20_curry_script (fn : CurryFn) (ts : List String) :
   unfold runScript
   exact congrArg (fun outs => " | ".intercalate (List.reverse outs)) h
 
+/-- A CurryDef's accumulator is its own: only a Call on `A` changes `A` (not the caller overwriting the
+    buffer it once spread into a Call, not Calls on another CurryDef started from the same buffer), and a Call
+    never changes the caller's buffer. -/
+theorem C20_curry_accumulator_is_private {σ : Type} (call : σ → List Int → σ × String) (res : σ → Int)
+    (st : CwState σ) (cmd : CwCmd) :
+    ((∀ l, cmd ≠ .callA l) → (cwExec call res st cmd).1.a = st.a) ∧
+    ((∀ l, cmd ≠ .callB l) → (cwExec call res st cmd).1.b = st.b) ∧
+    ((∀ c l, cmd ≠ .buf c l) → (∀ i v, cmd ≠ .write i v) →
+      (cwExec call res st cmd).1.xs = st.xs ∧ (cwExec call res st cmd).1.cap = st.cap) := by
+  cases cmd <;> simp [cwExec]
+
+/-- the `cw` scripts (two CurryDefs, one caller buffer spread into Calls, overwritten and re-used): the
+    implementation model prints what the Spec prints -/
+theorem C20_curry_caller_slices (fn : CurryFn) (cmds : List CwCmd) :
+    runCw (curryCallImpl fn) (fun c => c.result) (Curry.init []) cmds =
+    runCw (curryCallSpec fn) (fun c => c.result) Spec.CurryS.init cmds := by
+  have h := cw_script_refines fn cmds ⟨Curry.init [], Curry.init [], [], 0⟩
+    ⟨Spec.CurryS.init, Spec.CurryS.init, [], 0⟩ [] ⟨rfl, rfl, rfl, rfl, rfl, rfl⟩
+  unfold runCw
+  exact congrArg (fun outs => " | ".intercalate (List.reverse outs)) h
+
 /-- the protocol shapes that implement the atom sequence the transition system assumes for `Call` (lock;
     done-check; append; invoke; store; unlock): the current text, the same with a deferred unlock, and both
     with the done-check spelled `IsDone()` -/
